@@ -168,6 +168,14 @@ let handle (line : string) : string =
     "adapt " ^ String.concat "," (List.map (fun m ->
         (if m.M.am_synthetic then "S" ^ pn m.M.am_sender ^ ">" ^ pn m.M.am_recipient ^ "/" ^ pn m.M.am_round
          else "M" ^ pn m.M.am_tag) ^ "@" ^ pz m.M.am_offset) out)
+  | "filename" :: kind :: round :: id :: batch :: _ ->
+    (* filename <kind> <round hex|-> <id hex|-> <batch hex | - (empty) | none> *)
+    let hx s = if s = "-" then [] else bytes_of_hex s in
+    let k = match kind with
+      | "invite" -> M.FInvite | "commits" -> M.FCommits | "deals" -> M.FDeals | "responses" -> M.FResponses
+      | "master" -> M.FMaster | "sign" -> M.FSign | "collected" -> M.FCollected | "reinit" -> M.FReinit | _ -> M.FUnknown in
+    let b = if batch = "none" then None else Some (hx batch) in
+    "filename " ^ hex_of_bytes (M.file_name k (hx round) (hx id) b)
   | "c04lock" :: _ -> "c04lock waits=" ^ (if M.tick_waits_during_command then "true" else "false")
   | "c04gap" :: _ -> "c04gap saved-without-password=" ^ (if M.gap_saves_without_password then "true" else "false")
   | "c04rounds" :: t1 :: m1 :: t2 :: m2 :: _ ->
